@@ -1,3 +1,256 @@
 import Infretis.Model.RepexProto
+import Infretis.Model.JobDraws
+open Infretis Infretis.Proto Infretis.Repex Infretis.JobDraws
 
-def main : IO Unit := Infretis.Repex.repexMain
+/-
+Driver of C07: the stateful replica-exchange protocol of `Infretis.Repex.handle` (shared), plus
+
+  jobdraws <pin> <n> <kind>*n <move…>
+      runs `JobDraws.runJob` on the picked entries of THE JOB IN FLIGHT with that pin (as the model's `prep` issued
+      it) and the engine table of the (single) worker process; the table is updated.
+      kind  := gmx0 | gmx1 | cp2k | lammps | turtlemd | ase0 | ase1        (class of engine type k)
+      move  := sh <C09 shoot tokens> | wf <C09 wf tokens> | retis <C11 tokens> | quantis <C11 tokens>
+      answer: ok <accept> <status> | <events> | <trace> | <engine table>      or  err:<kind>
+  engcall <kind> <modvel|propB|propF|dump> <-|entropy:key,key,…>
+      the draws of ONE engine call of that class with `engine.rgen` as given (`-` = attribute absent)
+      answer: ok <trace>  or  err:norgen
+-/
+
+def parseKind? : String → Option EngKind
+  | "gmx0" => some (.gromacs false) | "gmx1" => some (.gromacs true) | "cp2k" => some .cp2k
+  | "lammps" => some .lammps | "turtlemd" => some .turtlemd | "ase0" => some (.ase false)
+  | "ase1" => some (.ase true) | _ => none
+
+def showWhat : What → String
+  | .integers lo hi => s!"int:{lo}:{hi}" | .random => "random" | .normal => "normal"
+  | .standardNormal => "stdnormal" | .seed hi => s!"seed:{hi}" | .noise => "noise" | .genvel => "genvel"
+
+def showCall : EngCall → String
+  | .modvel => "modvel" | .propagate true => "propB" | .propagate false => "propF" | .dump => "dump"
+
+def showEv : JobDraws.Ev → String
+  | .draw ens w => s!"D:{ens}:{showWhat w}"
+  | .eng slot c => s!"E:{slot}:{showCall c}"
+
+def showSrc : Src → String
+  | .stream s => "S" ++ showStream s | .numpyGlobal => "G" | .external => "X"
+
+def showTDraw (d : TDraw) : String := showSrc d.src ++ "/" ++ showWhat d.what
+
+def showJErr : JobDraws.Err → String
+  | .arity => "err:arity" | .key => "err:key" | .index => "err:index" | .noRgen => "err:norgen"
+  | .script => "err:script"
+  | .move e => "err:move:" ++ (match e with
+      | .value => "value" | .badDraw => "baddraw" | .zerodiv => "zerodiv" | .index => "index" | .assert => "assert")
+  | .swap e => "err:swap:" ++ (match e with
+      | .assert => "assert" | .index => "index" | .type => "type" | .value => "value")
+
+/-! parsers of the move inputs: the grammars of the C09 and C11 drivers -/
+
+def parseSc? (s : String) : Option (Option Moves.StartCond) :=
+  if s = "-" then some none
+  else if s = "0" then some (some { hasL := false, hasR := false })
+  else if s.toList.all (fun c => c = 'L' || c = 'R') then
+    some (some { hasL := s.toList.contains 'L', hasR := s.toList.contains 'R' })
+  else none
+
+def parseShootIn (toks : List String) : Option Moves.ShootIn :=
+  match toks with
+  | oto :: ld :: l :: m :: r :: ml :: am :: sc :: sce :: idx :: xi :: kick :: rest =>
+    match parseInt? oto, parseInt? l, parseInt? m, parseInt? r, parseNat? ml, parseSc? sc, parseSc? sce,
+          parseNat? idx, parseRat? xi, parseInt? kick, takeList parseInt? rest with
+    | some oto, some l, some m, some r, some ml, some (some sc), some sce, some idx, some xi, some kick,
+      some (old, rest) =>
+      match takeList parseInt? rest with
+      | some (back, rest) =>
+        match takeList parseInt? rest with
+        | some (forw, []) =>
+          some { old := old, oldTimeOrigin := oto, genLd := ld = "1", l := l, m := m, r := r, maxlength := ml,
+                 allowMax := am = "1", sc := sc, scEns := sce, idx := idx, xi := xi, kick := kick,
+                 back := back, forw := forw }
+        | _ => none
+      | none => none
+    | _, _, _, _, _, _, _, _, _, _, _ => none
+  | _ => none
+
+def parseJumps : Nat → List String → Option (List Moves.WfJump × List String)
+  | 0, rest => some ([], rest)
+  | n + 1, idx :: kick :: rest =>
+    match parseNat? idx, parseInt? kick, takeList parseInt? rest with
+    | some idx, some kick, some (back, rest) =>
+      match takeList parseInt? rest with
+      | some (forw, rest) =>
+        match parseJumps n rest with
+        | some (js, rest) => some ({ idx := idx, kick := kick, back := back, forw := forw } :: js, rest)
+        | none => none
+      | none => none
+    | _, _, _ => none
+  | _ + 1, _ => none
+
+def parseWfIn (toks : List String) : Option Moves.WfIn :=
+  match toks with
+  | oto :: l :: m :: r :: cap :: ml :: nj :: sc :: sce :: xi :: rest =>
+    let capv : Option (Option Int) := if cap = "-" then some none else (parseInt? cap).map some
+    match parseInt? oto, parseInt? l, parseInt? m, parseInt? r, capv, parseNat? ml, parseNat? nj, parseSc? sc,
+          parseSc? sce, parseRat? xi, takeList parseInt? rest with
+    | some oto, some l, some m, some r, some capv, some ml, some nj, some (some sc), some (some sce), some xi,
+      some (old, rest) =>
+      match takeList parseInt? rest with
+      | some (eb, rest) =>
+        match takeList parseInt? rest with
+        | some (ef, cnt :: rest) =>
+          match parseNat? cnt with
+          | some cnt =>
+            match parseJumps cnt rest with
+            | some (js, []) =>
+              some { old := old, oldTimeOrigin := oto, l := l, m := m, r := r, cap := capv, maxlength := ml,
+                     nJumps := nj, sc := sc, scEns := sce, xiSeg := xi, jumps := js, extBack := eb, extForw := ef }
+            | _ => none
+          | none => none
+        | _ => none
+      | none => none
+    | _, _, _, _, _, _, _, _, _, _, _ => none
+  | _ => none
+
+def optInt? (s : String) : Option (Option Int) :=
+  if s = "-" then some none else (parseInt? s).map some
+
+def parseBool? (s : String) : Option Bool :=
+  if s = "1" then some true else if s = "0" then some false else none
+
+def parseFrame? (s : String) : Option ZeroSwap.Frame :=
+  match s.splitOn "," with
+  | [a, b, c, d, e] =>
+    match parseInt? a, parseInt? b, parseInt? c, parseBool? d, optInt? e with
+    | some op, some x, some v, some vr, some vp => some { op := op, cfg := ⟨x, v⟩, vr := vr, vpot := vp }
+    | _, _, _, _, _ => none
+  | _ => none
+
+def parseGen? (s : String) : Option ZeroSwap.GenFrame :=
+  match s.splitOn "," with
+  | [a, b, c, e] =>
+    match parseInt? a, parseInt? b, parseInt? c, optInt? e with
+    | some op, some x, some v, some vp => some { op := op, cfg := ⟨x, v⟩, vpot := vp }
+    | _, _, _, _ => none
+  | _ => none
+
+def takeEns : List String → Option (ZeroSwap.Ens × List String)
+  | a :: b :: c :: m :: l :: r :: w :: cap :: rest =>
+    match parseInt? a, parseInt? b, parseInt? c, parseNat? m, parseBool? l, parseBool? r, parseBool? w, optInt? cap with
+    | some a, some b, some c, some m, some l, some r, some w, some cap =>
+      some ({ i0 := a, i1 := b, i2 := c, maxlen := m, scL := l, scR := r, wf := w, cap := cap }, rest)
+    | _, _, _, _, _, _, _, _ => none
+  | _ => none
+
+def takeScript : List String → Option (ZeroSwap.Script × List String)
+  | v0 :: rest =>
+    match optInt? v0, takeList parseGen? rest with
+    | some v0, some (fs, rest) => some ({ v0 := v0, rest := fs }, rest)
+    | _, _ => none
+  | _ => none
+
+def parseSwapHead (rest : List String) :
+    Option (ZeroSwap.Ens × ZeroSwap.Ens × List ZeroSwap.Frame × List ZeroSwap.Frame × List String) :=
+  match takeEns rest with
+  | none => none
+  | some (e0, rest) =>
+    match takeEns rest with
+    | none => none
+    | some (e1, rest) =>
+      match takeList parseFrame? rest with
+      | none => none
+      | some (old0, rest) =>
+        match takeList parseFrame? rest with
+        | none => none
+        | some (old1, rest) => some (e0, e1, old0, old1, rest)
+
+def parseMove : List String → Option MoveIn
+  | "sh" :: rest => (parseShootIn rest).map .sh
+  | "wf" :: rest => (parseWfIn rest).map .wf
+  | "retis" :: rest =>
+    match parseSwapHead rest with
+    | none => none
+    | some (e0, e1, old0, old1, rest) =>
+      match takeScript rest with
+      | none => none
+      | some (bw, rest) =>
+        match takeScript rest with
+        | some (fw, [xi]) => (parseRat? xi).map (fun xi => .retis e0 e1 old0 old1 bw fw xi)
+        | _ => none
+  | "quantis" :: rest =>
+    match parseSwapHead rest with
+    | none => none
+    | some (e0, e1, old0, old1, rest) =>
+      match takeScript rest with
+      | none => none
+      | some (a, rest) =>
+        match takeScript rest with
+        | none => none
+        | some (b, rest) =>
+          match takeScript rest with
+          | none => none
+          | some (c, rest) =>
+            match takeScript rest with
+            | some (dd, [aa, b0, b1, xi, p]) =>
+              match parseBool? aa, parseRat? b0, parseRat? b1, parseRat? xi, parseRat? p with
+              | some aa, some b0, some b1, some xi, some p =>
+                some (.quantis e0 e1 old0 old1 a b c dd aa b0 b1 xi p)
+              | _, _, _, _, _ => none
+            | _ => none
+  | _ => none
+
+def showTbl (tbl : EngTbl) : String :=
+  ";".intercalate (tbl.map (fun (e, x) => s!"{e.1}:{e.2}={showStream x}"))
+
+def showOut (o : JobOut) : String :=
+  s!"ok {if o.accept then 1 else 0} {o.status} | " ++ " ".intercalate (o.evs.map showEv) ++ " | " ++
+    " ".intercalate (o.trace.map showTDraw) ++ " | " ++ showTbl o.tbl
+
+def parseStream? (tok : String) : Option (Option Stream) :=
+  if tok = "-" then some none else
+  match tok.splitOn ":" with
+  | [en, key] =>
+    match parseNat? en, (if key = "" then some [] else (key.splitOn ",").mapM parseNat?) with
+    | some en, some key => some (some { entropy := en, key := key })
+    | _, _ => none
+  | _ => none
+
+def parseCall? : String → Option EngCall
+  | "modvel" => some .modvel | "propB" => some (.propagate true) | "propF" => some (.propagate false)
+  | "dump" => some .dump | _ => none
+
+def handle7 (d : DState) (toks : List String) : DState × String :=
+  match toks with
+  | "jobdraws" :: pin :: n :: rest =>
+    match parseNat? pin, parseNat? n with
+    | some pin, some n =>
+      if rest.length < n then (d, "bad-op") else
+      match (rest.take n).mapM parseKind?, parseMove (rest.drop n), d.jobs.find? (·.pin == pin) with
+      | some kinds, some mv, some job =>
+        match runJob .repaired kinds d.eng job.picked mv with
+        | .error e => (d, showJErr e)
+        | .ok o => ({ d with eng := o.tbl }, showOut o)
+      | _, _, _ => (d, "bad-op")
+    | _, _ => (d, "bad-op")
+  | ["engcall", kind, call, r] =>
+    match parseKind? kind, parseCall? call, parseStream? r with
+    | some k, some c, some r =>
+      match engDraws k c r with
+      | .error e => (d, showJErr e)
+      | .ok tr => (d, "ok " ++ " ".intercalate (tr.map showTDraw))
+    | _, _, _ => (d, "bad-op")
+  | _ => Infretis.Repex.handle d toks
+
+partial def mainLoop7 (h out : IO.FS.Stream) (d : DState) : IO Unit := do
+  let line ← h.getLine
+  if line.isEmpty then
+    out.flush
+    return ()
+  let l := (line.dropEndWhile (fun c => c = '\n' || c = '\r')).toString
+  let toks := (l.splitOn " ").filter (fun t => t ≠ "")
+  let (d', ans) := handle7 d toks
+  out.putStrLn ans
+  mainLoop7 h out d'
+
+def main : IO Unit := do
+  mainLoop7 (← IO.getStdin) (← IO.getStdout) { s := emptySt }
